@@ -14,6 +14,11 @@ func ReadRequest(r io.Reader) (apiVersion int16, correlationID int32, clientID s
 		return
 	}
 
+	if size < 0 {
+		err = fmt.Errorf("invalid negative kafka frame size: %d", size)
+		return
+	}
+
 	d.remain = int(size)
 	apiKey := ApiKey(d.readInt16())
 	apiVersion = d.readInt16()
@@ -49,7 +54,7 @@ func ReadRequest(r io.Reader) (apiVersion int16, correlationID int32, clientID s
 	if req.flexible {
 		// In the flexible case, there's a tag buffer at the end of the request header
 		taggedCount := int(d.readUnsignedVarInt())
-		for i := 0; i < taggedCount; i++ {
+		for i := 0; i < taggedCount && d.remain > 0; i++ {
 			d.readUnsignedVarInt() // tagID
 			size := d.readUnsignedVarInt()
 
